@@ -294,6 +294,17 @@ func (Other) NewT() *T {
 
 type NP *T
 
+// a defined pointer type that carries the annotation ITSELF (fixed: always annotated)
+// @constructor NewAP
+type AP *Other
+
+func NewAP() AP { return &Other{} }
+
+func AnnotatedPointerType() {
+	_ = []AP{{}} // P-ANNOTATED-DEFPTR-ELIDED
+	_ = new(AP) // P-ANNOTATED-DEFPTR-NEW
+}
+
 func Parens() {
 	_ = (new)(T) // P-PAREN-NEW
 	_ = ((new))(T) // P-PAREN2-NEW
@@ -318,5 +329,8 @@ func ZZC02Local() {
 		{f, nd.LineOf(c02SrcLocal, "P-PAREN2-NEW"), "CTOR02", ann},
 		{f, nd.LineOf(c02SrcLocal, "P-NAMEDPTR-ELIDED"), "CTOR01", ann},
 		{f, nd.LineOf(c02SrcLocal, "P-NAMEDPTR-MAP"), "CTOR01", ann},
+		// the defined pointer type AP is annotated itself: its elided literals are literals "of the type"
+		{f, nd.LineOf(c02SrcLocal, "P-ANNOTATED-DEFPTR-ELIDED"), "CTOR01", true},
+		{f, nd.LineOf(c02SrcLocal, "P-ANNOTATED-DEFPTR-NEW"), "CTOR02", true},
 	}, "C02 local type / shadowed new are no instantiations; a same-named method of another type, (new)(T) and elided literals of a named pointer type are")
 }
